@@ -7,7 +7,7 @@ import (
 	"verifharness/kit"
 )
 
-const rule = "sampler: random sampler settings (NumSamples 1-64, MinSamples, MaxStddev, OversaturatedStddevs, custom Convergence, Cutoff, MaxDepth, Antialias), image sizes 1x1..17x9 chosen below / equal to / above the worker count (runtime.NumCPU, fixed per process) and GOMAXPROCS in {1,2,5,16}, against a recording scene; the same in child processes restricted with taskset to 1, 2 or 5 CPUs (= worker count) with pixel counts below / equal to / a multiple of / above that count; closed forms: emitter enclosures (sphere, box, inward mesh, furnace walls, matte ball inside), matte parallelogram + ball under 1-2 point lights, all optionally wrapped in similarity transforms, BVH or joined; cameras: random frames, |fov| 0.02-3.1, negative fov, near-vertical look-at, auto-framing of boxes with aspect up to 100; objects: 1-7 primitives joined / BVH / filtered / nested, spheres and boxes under 1-3 Translate/Rotate/Scale/MatrixMultiply steps. Non-trivial: a convergence rule that actually stopped a pixel early (measured from the recorded counts) or a pixel count different from the worker count; a lit pixel / a visible ball / a furnace / a transformed scene; a non-square image; a field of view away from the helper default; a ray through several parts; a hit on a transformed object. Distinct: hash of the JSON case."
+const rule = "sampler: random sampler settings (NumSamples 1-64, MinSamples, MaxStddev, OversaturatedStddevs, custom Convergence, Cutoff, MaxDepth, Antialias), image sizes 1x1..17x9 chosen below / equal to / above the worker count (runtime.NumCPU, fixed per process) and GOMAXPROCS in {1,2,5,16}, against a recording scene; the same in child processes restricted with taskset to 1, 2, 4, 5 or 6 CPUs (= worker count) with pixel counts below / equal to / a multiple of / above that count; closed forms: emitter enclosures (sphere, box, inward mesh, furnace walls, matte ball inside), matte parallelogram + ball under 1-2 point lights, all optionally wrapped in similarity transforms, BVH or joined; cameras: random frames, |fov| 0.02-3.1, negative fov, near-vertical look-at, auto-framing of boxes with aspect up to 100; objects: 1-7 primitives joined / BVH / filtered / nested, spheres and boxes under 1-3 Translate/Rotate/Scale/MatrixMultiply steps. Non-trivial: a convergence rule that actually stopped a pixel early (measured from the recorded counts) or a pixel count different from the worker count; a lit pixel / a visible ball / a furnace / a transformed scene; a non-square image; a field of view away from the helper default; a ray through several parts; a hit on a transformed object. Distinct: hash of the JSON case."
 
 func TestProp(t *testing.T) {
 	runtime.GOMAXPROCS(2)
